@@ -176,7 +176,22 @@ class Tr:
         fail(e, f"comparison {op} on {ta},{tb}")
 
     def e_BoolOp(self, e):
-        parts = [self.expr(v) for v in e.values]
+        if isinstance(e.op, ast.And):
+            # Python's `and` short-circuits: a conjunct `x is not None` makes x a plain value in
+            # the conjuncts after it (the unwrapped default is never observed: && is lazy in value)
+            saved_env = dict(self.c.env)
+            parts = []
+            for v in e.values:
+                parts.append(self.expr(v))
+                for nm in self.notnone_names(v):
+                    cn, ty = self.c.env[nm]
+                    if ty == "optint":
+                        self.c.env[nm] = (f"(unwrapZ {cn})", "int")
+                    if ty == "optbool":
+                        self.c.env[nm] = (f"(match {cn} with Some b => b | None => false end)", "bool")
+            self.c.env = saved_env
+        else:
+            parts = [self.expr(v) for v in e.values]
         if any(t != "bool" for _, t in parts):
             fail(e, "boolop on non-bool")
         s = " && " if isinstance(e.op, ast.And) else " || "
@@ -974,6 +989,54 @@ def gen_mr_del():
     return "\n\n".join(out) + "\n"
 
 
+def gen_split_plan():
+    """cli._split_fps: (rows per part, digits of the zero-padded part index) as a function of the
+    number of rows and the two mutually exclusive options; Abort() is the error value.  The
+    statements between `fps = np.load(...)` and `stem = ...` plus the `parts < 2` guard are
+    translated; console output is dropped; `fps.shape[0]` is the parameter n."""
+    tree = ast.parse((REPO / "bblean/cli.py").read_text())
+    fn = find_func(tree, "_split_fps")
+    body = list(fn.body)
+    i_load = next((i for i, st in enumerate(body) if isinstance(st, ast.Assign) and len(st.targets) == 1
+                   and isinstance(st.targets[0], ast.Name) and st.targets[0].id == "fps"), None)
+    i_stem = next((i for i, st in enumerate(body) if isinstance(st, ast.Assign) and len(st.targets) == 1
+                   and isinstance(st.targets[0], ast.Name) and st.targets[0].id == "stem"), None)
+    if i_load is None or i_stem is None or not i_load < i_stem:
+        raise Unsupported("_split_fps: structure not recognised")
+    guards = [st for st in body[:i_load] if isinstance(st, ast.If)
+              and any(isinstance(n, ast.Name) and n.id in ("parts", "max_fps_per_file") for n in ast.walk(st.test))]
+    stmts = guards + body[i_load + 1:i_stem]
+
+    class Clean(ast.NodeTransformer):
+        def visit_Expr(self, n):
+            if isinstance(n.value, ast.Call) and isinstance(n.value.func, ast.Attribute) \
+                    and isinstance(n.value.func.value, ast.Name) and n.value.func.value.id == "console":
+                return None
+            return n
+
+        def visit_Subscript(self, n):
+            if ast.unparse(n) == "fps.shape[0]":
+                return ast.copy_location(ast.Name(id="n", ctx=ast.Load()), n)
+            self.generic_visit(n)
+            return n
+
+        def visit_Name(self, n):
+            if n.id == "fps":
+                raise Unsupported(f"line {n.lineno}: _split_fps uses fps other than through fps.shape[0]")
+            return n
+    mod = ast.Module(body=stmts, type_ignores=[])
+    mod = Clean().visit(mod)
+    ret = ast.Return(value=ast.Tuple(elts=[ast.Name(id="num_per_batch", ctx=ast.Load()),
+                                            ast.Name(id="digits", ctx=ast.Load())], ctx=ast.Load()))
+    stmts = list(mod.body) + [ret]
+    for st in stmts:
+        ast.fix_missing_locations(st)
+    ctx = Ctx({"n": ("n", "int"), "parts": ("parts", "optint"), "max_fps_per_file": ("max_fps_per_file", "optint")},
+              "tuple:int,int", {}, {}, True)
+    body_t = Tr(ctx).block(stmts)
+    return ("Definition split_plan (n : Z) (parts : option Z) (max_fps_per_file : option Z) :=\n  " + body_t + ".")
+
+
 def gen_util():
     """bblean/cli.py: parse_num_per_batch (nested in _fps_from_smiles)"""
     out = [HEADER.format(src="bblean/cli.py")]
@@ -981,6 +1044,7 @@ def gen_util():
         "bblean/cli.py", "_fps_from_smiles.parse_num_per_batch", "parse_num_per_batch",
         [("smiles_num", "int"), ("parts", "optint"), ("max_fps_per_file", "optint")],
         "tuple:int,int,optint", {}, raises=True))
+    out.append(gen_split_plan())
     return "\n\n".join(out) + "\n"
 
 
